@@ -130,11 +130,41 @@ class ApproximationScheme(object):
         """
         raise NotImplementedError("add_approximation has not been implemented")
 
+    def _coloring_fits(self, system, coloring):
+        """
+        Return True unless the coloring was computed for a different total jacobian.
+
+        Parameters
+        ----------
+        system : System
+            The system having its derivs approximated.
+        coloring : Coloring or None
+            The coloring of that system.
+
+        Returns
+        -------
+        bool
+            False if the system is the model and the ofs and wrts the coloring was computed for
+            differ from the ones being approximated now.
+        """
+        if coloring is None or system.pathname != '' or coloring._row_vars is None:
+            return True
+        ofs = system._get_jac_ofs()
+        wrts = system._get_jac_wrts(system._coloring_info.wrt_matches)
+        return (coloring._row_vars == [t[0] for t in ofs] and
+                list(coloring._row_var_sizes) == [t[2] - t[1] for t in ofs] and
+                coloring._col_vars == [t[0] for t in wrts] and
+                list(coloring._col_var_sizes) == [t[2] - t[1] for t in wrts])
+
     def _init_colored_approximations(self, system):
         # don't do anything if the coloring doesn't exist yet, or if there is no
         # forward coloring
         coloring = system._coloring_info.coloring
         if coloring is None or coloring._fwd is None:
+            return
+
+        # a total coloring says nothing about the totals of other ofs and wrts
+        if not self._coloring_fits(system, coloring):
             return
 
         is_total = system.pathname == ''
@@ -225,6 +255,8 @@ class ApproximationScheme(object):
         """
         total = system.pathname == ''
         coloring = system._get_static_coloring()
+        if not self._coloring_fits(system, coloring):
+            coloring = None
 
         self._approx_groups = []
         self._nruns_uncolored = 0
